@@ -83,6 +83,7 @@ package store
 //@   call[Header.WriteTo#0] assert zero_header [C06,C12]: arg0.DataOffset == 0 && arg0.DataSize == 0 && arg0.IndexOffset == 0 && arg0.Characteristics.Hi == 0 && arg0.Characteristics.Lo == 0 && wn(arg1) == 11
 //@   loop[0] invariant offset [C01,C06,C12]: sectionOffset == wrap_s64(pos(v1r) - sbase(v1r))
 //@   loop[0] invariant reader_ok [C12]: objinv(v1r)
+//@   loop[0] decreases lim(v1r) - pos(v1r)
 //@   loop[0] step every_section_indexed [C01,C06,C12]: nrec(idx) == athead(0, nrec(idx)) + 1
 //@   call[InsertionIndex.InsertNoReplace#0] assert section_on_file [C06]: athead(0, pos(v1r)) + vsize(length) + length <= lim(v1r)
 //@   call[InsertionIndex.InsertNoReplace#0] assert record [C01,C03,C06,C12]: ref(arg0) == ref(idx) && arg1 == c && arg2 == wrap_u64(wrap_s64(athead(0, pos(v1r)) - sbase(v1r)))
